@@ -371,6 +371,12 @@ func (req *Request) CopyTo(dst *Request) {
 		if dst.body != nil {
 			dst.body.Reset()
 		}
+	} else if req.OnlyMultipartForm() {
+		// the form was parsed straight from the connection: there is no body
+		// the copy could re-create it from
+		if body, err := MarshalMultipartForm(req.multipartForm, req.multipartFormBoundary); err == nil {
+			dst.BodyBuffer().Set(body)
+		}
 	} else if req.body != nil {
 		dst.BodyBuffer().Set(req.body.B)
 	} else if dst.body != nil {
